@@ -135,6 +135,8 @@ func injectedErr(o Outcome, gr schema.GroupResource, name string) error {
 		return kerrors.NewServiceUnavailable("injected: the server is currently unable to handle the request")
 	case Missing:
 		return kerrors.NewNotFound(gr, name)
+	case Expired:
+		return kerrors.NewResourceExpired("injected: the provided continue parameter is too old to display a consistent list result")
 	}
 	return nil
 }
@@ -415,9 +417,40 @@ func (c *Client) List(_ context.Context, list client.ObjectList, opts ...client.
 			}
 		}
 	}
+	// pagination: a page holds at most min(limit, PageCap) items; the continue token is the
+	// offset into the (key-ordered) full result
+	next := ""
+	if page := pageSize(lo.Limit, w.PageCap); page > 0 || lo.Continue != "" {
+		off := 0
+		if lo.Continue != "" {
+			if _, serr := fmt.Sscanf(lo.Continue, "off:%d", &off); serr != nil || off < 0 {
+				e := kerrors.NewBadRequest("sim: invalid continue token " + lo.Continue)
+				ev.Err, ev.Reason = e.Error(), string(kerrors.ReasonForError(e))
+				w.record(&ev)
+				w.mu.Unlock()
+				return e
+			}
+		}
+		if off > len(items) {
+			off = len(items)
+		}
+		items = items[off:]
+		if page > 0 && len(items) > page {
+			items = items[:page]
+			next = fmt.Sprintf("off:%d", off+page)
+		}
+	}
 	ev.Note = fmt.Sprintf("items=%d", len(items))
+	if lo.Continue != "" || next != "" {
+		ev.Note += fmt.Sprintf(" continue=%q next=%q", lo.Continue, next)
+	}
 	w.record(&ev)
 	w.mu.Unlock()
+	if next != "" || lo.Continue != "" {
+		if la, aerr := meta.ListAccessor(list); aerr == nil {
+			la.SetContinue(next)
+		}
+	}
 
 	if ul, ok := list.(*unstructured.UnstructuredList); ok {
 		ul.Items = ul.Items[:0]
@@ -440,6 +473,16 @@ func (c *Client) List(_ context.Context, list client.ObjectList, opts ...client.
 		objs = append(objs, o)
 	}
 	return meta.SetList(list, objs)
+}
+
+func pageSize(limit int64, pageCap int) int {
+	switch {
+	case limit > 0 && pageCap > 0:
+		return min(int(limit), pageCap)
+	case limit > 0:
+		return int(limit)
+	}
+	return 0
 }
 
 func (c *Client) matchFields(gvk schema.GroupVersionKind, o map[string]any, sel fields.Selector) (bool, error) {
@@ -539,7 +582,7 @@ func (c *Client) do(req *writeReq) (map[string]any, error) {
 		w.record(&ev)
 		w.mu.Unlock()
 		panic(Crash{c.Actor, idx})
-	case Conflict, ServerError, Timeout, NotServed, Unavailable, Missing:
+	case Conflict, ServerError, Timeout, NotServed, Unavailable, Missing, Expired:
 		return fail(injectedErr(out, w.gr(req.key), req.key.Name))
 	}
 
